@@ -18,10 +18,12 @@ RECURSIVE IncSeq(_)
 IncSeq(S) == IF S = {} THEN <<>> ELSE <<MinOf(S)>> \o IncSeq(S \ {MinOf(S)})
 
 MkTree(n, p, mirror) ==
-  [n    |-> n,
-   par  |-> p,
-   kids |-> [x \in 1..n |-> LET s == IncSeq({i \in 1..n : p[i] = x}) IN IF mirror THEN Rev(s) ELSE s],
-   lab  |-> [x \in 1..n |-> x],
-   mirror |-> mirror]
+  LET kids == [x \in 1..n |-> LET s == IncSeq({i \in 1..n : p[i] = x}) IN IF mirror THEN Rev(s) ELSE s]
+  IN [n    |-> n,
+      par  |-> p,
+      kids |-> kids,
+      lab  |-> [x \in 1..n |-> x],
+      sp   |-> SpOf(kids, p),
+      mirror |-> mirror]
 
 =============================================================================
